@@ -432,6 +432,8 @@ impl Sender {
     ) -> Option<Vec<u8>> {
         let session_index_orig = sessions.index;
         loop {
+            #[cfg(feature = "ypo_flute_verif")]
+            crate::verif::tick("sender::read_priority_queue");
             let session = sessions.sessions.get_mut(sessions.index).unwrap();
             let data = session.run(fdt, now);
 
